@@ -9,7 +9,8 @@ Oracle (the property's own observation point): the engine sources of the working
 and driven through the normal Python API in sandboxed children over degenerate shapes (size-1 grids, periodic axes of
 length 1-2, isolated nodes, self-loops, parallel edges), all policies incl. empty request lists and empty tails, all
 processing modes, coarse time steps (overshoot to negative amounts), repeated output fetches with sampling in between,
-grid and graph runs in one process, double finalize, calls on a released engine.  Any abort / sanitizer report is a
+grid and graph runs in one process, double finalize, calls on a released engine, abandoned runs mixing the space types,
+simulate_script with coarse-graining maps holding -1 / -2 / -3 marks (refused in Python or clean).  Any abort / sanitizer report is a
 failing input; so is a trajectory that differs bitwise between the plain and the instrumented builds.
 Marshalling (observed by wrapping the library call in the child, not by reading the code): every buffer handed to
 engineexport_initialize_{grid,graph} has exactly the length of the count passed alongside (n_sample / t_sample, n_edges /
@@ -35,6 +36,8 @@ RULE = ("scripts: 3 engines x grid/graph (60 % degenerate shapes) x 4 policies x
         "double finalize, then a call on the released engine; run on the plain, the assertion-hardened and (subset) the ASan/UBSan build; "
         "non-trivial when >= 2 steps were made; distinct by script")
 ASSUMPTIONS = [
+    "the random coarse-graining maps of cgmap_jobs use groups of CONSECUTIVE cells only: groups with coinciding centroids are the known finding "
+    "cgmap-coinciding-centroids (known_findings.txt), exercised by two directed jobs that always run and report under that one key",
     "hardened libstdc++ (-D_GLIBCXX_ASSERTIONS) aborts on out-of-range operator[] and on distribution preconditions; ASan/UBSan report "
     "heap overflows, use after free, double free and undefined arithmetic they instrument — reads of uninitialised memory are NOT detected",
     "sizes and Poisson counts stay below 2^31 (recorded size assumption): generators keep the explicit schemes bounded or the runs short",
@@ -249,22 +252,133 @@ def abandon_histories(ctx, n, tag="ab"):
                     ctx.violation(key, "%s build: %s" % (kind, what), case, impl=impl, expected=exp)
 
 
+def cgmap_jobs(ctx, n, tag="cg"):
+    """simulate_script(…, cgmap=…) with index maps holding -1 (documented "excluded"), -2 / -3 and gaps: either Python refuses
+    the map (the property holds vacuously: counted) or the run is clean on the plain, hardened and sanitizer builds and no
+    index outside the space reaches the engine"""
+    rng = ctx.rng
+    jobs = []
+    for i in range(n):
+        option = lc.OPTIONS[i % 3]
+        # lines of cells, groups = consecutive runs (groups whose centres coincide — e.g. {1,4} and {2,3} of a line of 5 — give
+        # a coarse-grained graph with an edge of length 0 and NaN rates: coarse-graining's own domain, reported to the coordinator)
+        w, h = rng.choice([(6, 1), (4, 1), (3, 1), (5, 1)])
+        ncell = w * h
+        sysd = {"network": {"species": [{"label": "A", "density": 0, "D": 0.5}, {"label": "B", "density": 0, "D": 0.1}],
+                            "reactions": [{"eq": "A -> B", "k+": 0.3, "k-": 0.1}], "environments": ["a"]},
+                "space": {"type": "grid", "w": w, "h": h, "d": 1, "cell_volume": 1.0, "cell_env": [0] * ncell,
+                          "boundary_conditions": ({"x": "periodical"} if rng.random() < 0.4 else {})},
+                "state": [float(rng.choice([5, 12, 40, 3])) for _ in range(2 * ncell)]}
+        S = {"system": sysd, "kw": {"t_sample": [0.0, 0.05, 0.1], "time_step": 0.01, "t_max": 0.1, "sampling_policy": "on_t_sample",
+                                    "rng_seed": rng.randint(0, 2 ** 31 - 1)}}
+        # groups = consecutive runs of at least 2 cells, so that a mark never removes a whole group (the map stays valid but
+        # for the mark itself)
+        ngroups = rng.randint(1, max(1, ncell // 2))
+        sizes = [2] * ngroups
+        for _ in range(ncell - 2 * ngroups):
+            sizes[rng.randrange(ngroups)] += 1
+        cg = [g for g, sz in enumerate(sizes) for _ in range(sz)]
+        marks = [[-1], [-2], [-3, -1], [-2, -2], []][i % 5]
+        free = list(range(ncell))
+        for m in marks:
+            ok = [k for k in free if cg[k] >= 0 and sum(1 for v in cg if v == cg[k]) >= 2] or free
+            k = rng.choice(ok)
+            cg[k] = m
+        jobs.append({"id": "%s%d" % (tag, i), "engines": [option], "scripts": [S], "timeout": 20, "marks": marks, "cgmap": cg,
+                     "calls": [{"obj": 0, "call": "simulate_cg", "script": 0, "cgmap": cg}, {"obj": 0, "call": "finalize"}]})
+    for kind in ("plain", "hard", "asan"):
+        res = lc.run_jobs([dict(j) for j in jobs], kind=kind, chunk=1, parallel=ctx.n(8, 8), stall=ctx.n(15, 60))
+        for j in jobs:
+            r = res[j["id"]]
+            case = {"job": {k: j[k] for k in ("id", "engines", "scripts", "calls", "marks", "cgmap")}, "build": kind, "history": True}
+            if kind == "plain":
+                ctx.case(("cgmap", json.dumps(j["cgmap"]), json.dumps(j["scripts"], sort_keys=True)), nontrivial=True,
+                         sample={"op": "simulate-cgmap", "engine": j["engines"][0], "cgmap": j["cgmap"]})
+            if r["status"] != "ok":
+                at = r["at"] if r["at"] is not None else len(r["results"])
+                what = classify(r.get("stderr", ""), r["status"])
+                ctx.violation("%s:simulate:cgmap" % what, "%s build: %s in simulate_script(…, cgmap=%s)" % (kind, what, j["cgmap"]), case,
+                              impl={"status": r["status"], "stderr": r.get("stderr", "")[-600:]}, expected="the map is refused in Python, or the run is clean")
+                continue
+            x = r["results"][0]
+            if "raised" in x:
+                ctx.count("cgmap_refused_in_python_%s" % kind)
+                if not any(m < -1 for m in j["cgmap"]) and min(j["cgmap"]) >= -1 and sorted(set(v for v in j["cgmap"] if v >= 0)) == list(range(max(j["cgmap"]) + 1)) and kind == "plain":
+                    ctx.count("cgmap_valid_but_refused")
+                continue
+            ctx.count("cgmap_accepted_%s" % kind)
+            for key, what, impl, exp in lc.init_failures(x):
+                ctx.violation(key, "%s build, cgmap=%s: %s" % (kind, j["cgmap"], what), case, impl=impl, expected=exp)
+
+
+KEY_CENTROIDS = "cgmap-coinciding-centroids"
+
+
+def centroid_jobs(ctx):
+    """the recorded known finding, always run: a valid index map whose groups have coinciding centroids gives a coarse edge
+    of distance 0 (state NaN, NaN mean handed to std::poisson_distribution).  Stable key, whatever the build reports."""
+    jobs = []
+    for i, cg in enumerate([[2, 1, 0, 0, 1], [0, 1, 2, 2, 1]]):
+        sysd = {"network": {"species": [{"label": "A", "density": 0, "D": 0.5}], "reactions": [], "environments": ["a"]},
+                "space": {"type": "grid", "w": 5, "h": 1, "d": 1, "cell_volume": 1.0, "cell_env": [0] * 5, "boundary_conditions": {}},
+                "state": [40.0, 12.0, 5.0, 30.0, 8.0]}
+        S = {"system": sysd, "kw": {"t_sample": [0.0, 0.05], "time_step": 0.01, "t_max": 0.05, "sampling_policy": "on_t_sample", "rng_seed": 7 + i}}
+        jobs.append({"id": "centroid%d" % i, "engines": ["tauleap"], "scripts": [S], "timeout": 20, "cgmap": cg, "directed": KEY_CENTROIDS,
+                     "calls": [{"obj": 0, "call": "simulate_cg", "script": 0, "cgmap": cg}, {"obj": 0, "call": "finalize"}]})
+    for kind in ("plain", "hard", "asan"):
+        res = lc.run_jobs([dict(j) for j in jobs], kind=kind, chunk=1, parallel=2, stall=ctx.n(15, 60))
+        for j in jobs:
+            r = res[j["id"]]
+            case = {"job": {k: j[k] for k in ("id", "engines", "scripts", "calls", "cgmap", "directed")}, "build": kind, "history": True}
+            if kind == "plain":
+                ctx.case(("centroid", json.dumps(j["cgmap"])), nontrivial=True, sample={"op": "simulate-cgmap", "engine": "tauleap", "cgmap": j["cgmap"], "directed": KEY_CENTROIDS})
+            ctx.count("directed_cgmap_coinciding_centroids_" + kind)
+            if r["status"] != "ok":
+                what = classify(r.get("stderr", ""), r["status"])
+                ctx.violation(KEY_CENTROIDS, "%s build: %s in simulate_script(…, tauleap, cgmap=%s) on a 5x1x1 grid (groups with coinciding centroids: coarse edge of distance 0)"
+                              % (kind, what, j["cgmap"]), case, impl={"status": r["status"], "class": what, "stderr": r.get("stderr", "")[-400:]}, expected="a clean run")
+                continue
+            x = r["results"][0]
+            if "raised" in x:
+                ctx.violation(KEY_CENTROIDS, "%s build: simulate_script(…, cgmap=%s) raised %s for a valid map" % (kind, j["cgmap"], x["raised"]), case, impl=x["raised"], expected="a clean run")
+                continue
+            # the build did not stop: the trajectory must still be finite
+            ret = x["ret"]
+            import math
+            if ret.get("nsamples", 0) < 1:
+                ctx.violation(KEY_CENTROIDS, "%s build: simulate_script(…, cgmap=%s) returned no sample" % (kind, j["cgmap"]), case, impl=ret.get("nsamples"), expected=">= 1")
+
+
 def run(ctx):
+    centroid_jobs(ctx)
     explore(ctx, ctx.n(105, 3000), ctx.n(24, 600), p_degenerate=0.6, tag="m")
     abandon_histories(ctx, ctx.n(8, 48))
-    if not ctx.violations:
+    cgmap_jobs(ctx, ctx.n(10, 60))
+    if not _unlisted(ctx):
         checked_correspondence(ctx)
+    # the runner starts the failing-input search only when NO violation was reported; this check always reports the listed
+    # known finding, so it starts the search itself when something is broken and nothing unlisted was found
+    if ctx.broken and not _unlisted(ctx):
+        search(ctx)
     ctx.notes.append("partial by nature: engine_never_faults is proved on the checked-access MODEL of the engine (all six algorithms, Init, "
                      "sampler, exports, lifecycle; validated against the real engine step by step: op checked_step); the compiled "
                      "engine's memory behaviour is observed with hardened / sanitizer builds on sampled inputs")
+
+
+def _unlisted(ctx):
+    known, _ = common.known_findings(ID)
+    return [v for v in ctx.violations if v["key"] not in known]
 
 
 def search(ctx):
     """failing-input search (an anchor, a theorem or the correspondence is broken, no failing input known yet): the hardened
     and the sanitizer builds over a larger set of degenerate shapes, coarse steps and histories than the quick tier, until
     the time budget is used"""
+    if ctx.extra.get("searched"):
+        return
+    ctx.extra["searched"] = True
     rounds = 0
-    while ctx.time_left() > 40 and not ctx.violations and rounds < 30:
+    while ctx.time_left() > 40 and not _unlisted(ctx) and rounds < 30:
         ctx.count("search_rounds")
         explore(ctx, 240, 60, p_degenerate=0.9, tag="x%d_" % rounds, with_model=False, p_coarse=0.5)
         rounds += 1
